@@ -7,6 +7,7 @@ import (
 	"encoding/binary"
 	"errors"
 	"io"
+	"sync/atomic"
 	"time"
 )
 
@@ -119,6 +120,8 @@ func vfExpect(data []byte) (ends []int, moovAt int, wellFormed bool) {
 	return
 }
 
+var vfWatchdogFirings int32
+
 var errVfCallback = errors.New("vf-callback-error")
 var errVfRead = errors.New("vf-read-error")
 
@@ -126,6 +129,7 @@ type vfRun struct {
 	cbs      []vfCB
 	err      error
 	finished bool
+	slow     bool // finished only in the grace period after the watchdog
 }
 
 // vfParse runs the real parser under a watchdog. cbFailAt >= 0 makes that callback return errVfCallback.
@@ -149,6 +153,16 @@ func vfParse(rd *vfReader, initBuf int, cbFailAt int, watchdog time.Duration) vf
 	case <-done:
 		run.finished = true
 	case <-time.After(watchdog):
+		// A parse takes microseconds. Before "did not terminate" is concluded the first few firings get a
+		// second, longer grace period so that a stalled machine cannot fabricate the verdict.
+		if atomic.AddInt32(&vfWatchdogFirings, 1) <= 3 {
+			select {
+			case <-done:
+				run.finished = true
+				run.slow = true
+			case <-time.After(6 * watchdog):
+			}
+		}
 	}
 	return run
 }
